@@ -24,6 +24,7 @@ see `AsyncInotifyWrapper.dir_loop`.
 import asyncio
 import contextlib
 import logging
+import os
 import sys
 from collections.abc import Generator
 
@@ -195,6 +196,14 @@ class Watcher:
 
         # Feed all updates to the workflow and clean up.
         self.busy_watching.clear()
+        # An event can name a path that does not exist (any more) by the time it is read:
+        # a file written in a directory right before that directory was moved away
+        # is reported after the move, under the former name of the directory.
+        # Such a path is a deleted one, also for the glob patterns that matched it.
+        for path in list(self.updated):
+            if not os.path.lexists(path):
+                self.updated.discard(path)
+                self.deleted.add(path)
         async with self.db:
             old_hashes = self.workflow.get_file_hashes(self.updated | self.deleted)
 
